@@ -3,6 +3,11 @@
    (grouping, memory_percent). *)
 From PV Require Import C13.Spec C13.Lib C13.ProofsMaps C13.ProofsSums C13.ProofsRollup C13.ProofsGroup.
 
+(* _parse_smaps on every kernel-formatted listing *)
+Theorem parse_smaps_spec ex ms : forallb (wf_kernel ex) ms = true ->
+  parse_smaps Alive (FContent (k_smaps ms)) = Val (spec_sums ms).
+Proof. intros Hms. unfold parse_smaps, with_file. now rewrite fstrip_strip, (smaps_sums_spec ex ms Hms). Qed.
+
 (* memory_full_info() when /proc/<pid>/smaps is the source: no roll-up support, or the
    roll-up file answers ENOENT / ESRCH *)
 Theorem full_info_smaps ex pagesize r ms has_rollup rollup :
@@ -12,8 +17,7 @@ Theorem full_info_smaps ex pagesize r ms has_rollup rollup :
   = Val (spec_full pagesize r ms).
 Proof.
   intros Hr Hms Hsrc. unfold memory_full_info, spec_full.
-  assert (E : parse_smaps Alive (FContent (k_smaps ms)) = Val (spec_sums ms)).
-  { unfold parse_smaps, with_file. now rewrite (smaps_sums_spec ex ms Hms). }
+  pose proof (parse_smaps_spec ex ms Hms) as E.
   assert (S : (if has_rollup then match rollup with
                                   | FENOENT | FESRCH => parse_smaps Alive (FContent (k_smaps ms))
                                   | _ => with_file Alive rollup parse_rollup end
